@@ -26,6 +26,7 @@ type BuildConfig struct {
 var (
 	cfgAmd64     = BuildConfig{Name: "linux/amd64", GOARCH: "amd64"}
 	cfgArm64     = BuildConfig{Name: "linux/arm64", GOARCH: "arm64"}
+	cfg386       = BuildConfig{Name: "linux/386", GOARCH: "386"}
 	cfgAppengine = BuildConfig{Name: "linux/amd64+appengine", GOARCH: "amd64", Tags: "appengine"}
 )
 
